@@ -1,0 +1,23 @@
+//go:build verif
+
+package sql
+
+import (
+	"github.com/antlr4-go/antlr/v4"
+
+	"github.com/lindb/lindb/sql/grammar"
+)
+
+// VerifGetSQLParserFunc returns the function Parse calls to obtain the parser for its token stream
+// (verification harness only).
+func VerifGetSQLParserFunc() func(tokens *antlr.CommonTokenStream) *grammar.SQLParser {
+	return getSQLParserFunc
+}
+
+// VerifSetSQLParserFunc replaces that function (verification harness only),
+// returns a function restoring the previous one.
+func VerifSetSQLParserFunc(fn func(tokens *antlr.CommonTokenStream) *grammar.SQLParser) (restore func()) {
+	old := getSQLParserFunc
+	getSQLParserFunc = fn
+	return func() { getSQLParserFunc = old }
+}
